@@ -120,7 +120,7 @@ func checkC14(c *Ctx) {
 	c.Set("exhaustive", true)
 }
 
-var sugarMethods = []string{"With", "WithLazy", "Debugw", "Infow", "Warnw", "Errorw", "DPanicw", "Panicw", "Fatalw", "Logw"}
+var sugarMethods = []string{"With", "WithLazy", "WithLazy-then-parent-activity", "Debugw", "Infow", "Warnw", "Errorw", "DPanicw", "Panicw", "Fatalw", "Logw"}
 
 func sugarLogger() (*zap.SugaredLogger, *observer.ObservedLogs) {
 	core, logs := observer.New(zap.DebugLevel)
@@ -154,6 +154,13 @@ func replaySugar(b sugarBeh, method string, variant int) (finds []Finding) {
 			s.With(args...).Info("MAIN")
 		case "WithLazy":
 			s.WithLazy(args...).Info("MAIN")
+		case "WithLazy-then-parent-activity":
+			// the lazy child keeps its arguments until first use: whatever the parent does meanwhile must not touch them
+			child := s.WithLazy(args...)
+			s.With("zz", 1, "yy", "two").Infow("PARENT-ACTIVITY", "other", "x", "more", 3)
+			s.Infow("PARENT-ACTIVITY", "a", 1)
+			s.WithLazy("lazy-sibling", true)
+			child.Info("MAIN")
 		case "Debugw":
 			s.Debugw("MAIN", args...)
 		case "Infow":
@@ -179,6 +186,9 @@ func replaySugar(b sugarBeh, method string, variant int) (finds []Finding) {
 	var diag []observer.LoggedEntry
 	for _, e := range logs.All() {
 		e := e
+		if e.Message == "PARENT-ACTIVITY" {
+			continue
+		}
 		if e.Message == "MAIN" {
 			if main != nil {
 				add("C14/duplicate-entry", "%s: the entry was logged twice", desc)
